@@ -200,12 +200,17 @@ def discover(fx):
             a['dynnames'] = sorted({sy.name for sy in itertools.islice(dyn.iter_symbols(), 30)})[:8] + ['nosuchsym']
         except Exception:  # noqa
             a['dynnames'] = ['nosuchsym']
+    a['loads'] = [sg['p_vaddr'] for sg in o.ef.iter_segments() if sg['p_type'] == 'PT_LOAD' and sg['p_filesz'] > 4][:6]
+    a['notesecs'] = [i for i, s_ in enumerate(o.ef.iter_sections()) if type(s_).__name__ == 'NoteSection'][:4]
+    a['loclists5'] = o.ef.get_section_by_name('.debug_loclists') is not None
+    a['rnglists5'] = o.ef.get_section_by_name('.debug_rnglists') is not None
     a['nstreams'] = len(o.streams())
     fx['args'] = a
     return a
 
 
-GEN_KINDS = ('iter_CUs', 'iter_DIEs', 'children', 'siblings', 'iter_sections', 'iter_symbols', 'iter_TUs')
+GEN_KINDS = ('iter_CUs', 'iter_DIEs', 'children', 'siblings', 'iter_sections', 'iter_symbols', 'iter_TUs', 'iter_segments', 'address_offsets',
+             'iter_notes', 'dyn_iter_tags', 'dyn_iter_symbols', 'loclists_CUs', 'rnglists_CUs')
 
 
 def make_gen(o, a, kind, arg):
@@ -215,6 +220,24 @@ def make_gen(o, a, kind, arg):
     if kind == 'iter_symbols':
         sec = o.section(a['symtabs'][0])
         return ((s.name, dump.canon(s.entry)) for s in sec.iter_symbols())
+    if kind == 'iter_segments':
+        return ((dump.canon(dict(sg.header)), type(sg).__name__) for sg in o.ef.iter_segments())
+    if kind == 'address_offsets':
+        va = a['loads'][arg % len(a['loads'])]
+        return iter(o.ef.address_offsets(va + arg % 3, 1))
+    if kind == 'iter_notes':
+        sec = o.section(a['notesecs'][arg % len(a['notesecs'])])
+        return ((n['n_name'], n['n_type'], n['n_offset'], n['n_size']) for n in sec.iter_notes())
+    if kind in ('dyn_iter_tags', 'dyn_iter_symbols'):
+        if 'dyn' not in o.kept:
+            o.kept['dyn'] = next((sg for sg in o.ef.iter_segments() if type(sg).__name__ == 'DynamicSegment'), None)
+        dyn = o.kept['dyn']
+        if kind == 'dyn_iter_tags':
+            return ((t.entry.d_tag, t.entry.d_val) for t in dyn.iter_tags())
+        return ((sy.name, dump.canon(sy.entry)) for sy in itertools.islice(dyn.iter_symbols(), 60))
+    if kind in ('loclists_CUs', 'rnglists_CUs'):
+        obj = o.di.location_lists() if kind == 'loclists_CUs' else o.di.range_lists()
+        return ((h['cu_offset'], h['unit_length'], h['offset_count']) for h in obj.iter_CUs())
     if kind == 'iter_CUs':
         return (dump.cu_key(cu) for cu in o.di.iter_CUs())
     if kind == 'iter_TUs':
@@ -233,6 +256,18 @@ def make_gen(o, a, kind, arg):
 def gen_available(a, kind):
     if kind in ('iter_sections',):
         return True
+    if kind == 'iter_segments':
+        return a['nseg'] > 0
+    if kind == 'address_offsets':
+        return bool(a.get('loads'))
+    if kind == 'iter_notes':
+        return bool(a.get('notesecs'))
+    if kind in ('dyn_iter_tags', 'dyn_iter_symbols'):
+        return a.get('has_dyn', False)
+    if kind == 'loclists_CUs':
+        return a.get('loclists5', False)
+    if kind == 'rnglists_CUs':
+        return a.get('rnglists5', False)
     if kind == 'iter_symbols':
         return bool(a['symtabs'])
     if kind == 'iter_TUs':
@@ -457,6 +492,7 @@ def run_history(ctx, fx, a, ops, case, o=None):
             if g[4]:
                 continue
             want = gen_truth(fx, a, g[0], g[1])
+            ctx.count('gen.' + g[0])
             for _ in range(op[2] % 4 + 1):
                 try:
                     got = ('ok', next(g[3]))
@@ -639,9 +675,10 @@ QUERY_OPS = ['num_sections', 'get_section', 'section_by_name', 'section_data', '
              'dyn_symbol_by_name', 'dyn_symbols', 'loclists_iter', 'rnglists_iter', 'null_refaddr', 'null_parent']
 
 CORPUS = ['test/testfiles_for_unittests/lib_versioned64.so.1.elf', 'test/testfiles_for_unittests/dwarf_test_versions_mix.elf',
-          'test/testfiles_for_unittests/simple_gcc.elf.arm', 'test/testfiles_for_unittests/dwarf_v5ops.so.elf',
+          'test/testfiles_for_unittests/simple_gcc.elf.arm', 'test/testfiles_for_readelf/dwarf_v5ops.so.elf',
           'test/testfiles_for_unittests/exe_simple64.elf', 'test/testfiles_for_unittests/arm_with_form_indirect.elf',
-          'test/testfiles_for_readelf/dwarf_gnuops4.so.elf', 'test/testfiles_for_readelf/dwarf_debug_types.elf']
+          'test/testfiles_for_readelf/dwarf_gnuops4.so.elf', 'test/testfiles_for_readelf/dwarf_debug_types.elf',
+          'test/testfiles_for_unittests/dwarf_llpair.elf']
 
 
 def corpus_fixtures():
@@ -691,6 +728,7 @@ def floors(ctx):
     out = ['operation never exercised: ' + k for k in QUERY_OPS if c['op.' + k] == 0 and k not in ('aranges', 'pubnames')]
     if c['exhaustive.states'] < 50:
         out.append('exhaustive exploration reached only %d abstract states' % c['exhaustive.states'])
+    out += ['suspended generator kind never advanced: ' + k for k in GEN_KINDS if c['gen.' + k] == 0]
     for k in ('fixture.gen', 'fixture.corpus', 'fixture.badver'):
         if c[k] == 0:
             out.append('no history on ' + k)
